@@ -6,36 +6,32 @@
 import Upnp.Spec.C06
 import Upnp.Lemmas.C06Text
 import Upnp.Lemmas.C06Attr
-import Upnp.Lemmas.C06Int
+import Upnp.Props.C08
 namespace Upnp.C06
 
-/-- a type row whose `out` coercer is decodable by its `in` coercer for every value of its type
-    (decidable; checked over the generated table in `Props/C06.lean`) -/
-def rowSound (row : TypeRow) : Bool :=
-  match row.ty, row.inn, row.out with
-  | .int, .int, .strInt => true
-  | .str, .str, .str => true
-  | .float, .float, .str => true
-  | .bool, .boolIn yes, .boolOut t f => yes.contains (lowerStr t) && !yes.contains (lowerStr f)
-  | .date, .dateTime, .iso0 => true
-  | .datetime, .dateTime, .isoTSec => true
-  | .time, .dateTime, .isoSec => true
-  | _, _, _ => false
+/-- the schema `mkSchema` returns carries the row's class and timezone demand -/
+theorem mkSchema_fields (O : Oracles) (row : TypeRow) (strict : Bool) (dc : Upnp.C08.Decl) (sc : Upnp.C08.Schema Fl)
+    (h : Upnp.C08.mkSchema O table row strict dc = .ok sc) : sc.ty = row.ty ∧ sc.requireTz = row.requireTz := by
+  unfold Upnp.C08.mkSchema at h
+  split at h
+  · simp at h
+  · split at h
+    · simp at h
+    · split at h
+      · simp at h
+      · simp only [Except.ok.injEq] at h; subst h; exact ⟨rfl, rfl⟩
 
-/-- the oracle hypotheses for one supplied value: `float(repr(x)) == x`,
-    `parse_date_time(v.isoformat()) == v` -/
-def oracleOk (O : Oracles) : PyVal → Prop
-  | .float r x => O.parseFloat r = some (some (.float r x))
-  | .dt c a iso => O.parseDt iso = some (some (.dt c a iso))
-  | _ => True
-
+/-- **the schema the factory builds decides C08's acceptance predicate** (`C08.check_eq_accept`) -/
 theorem schemaOk_eq_accepts (O : Oracles) (strict : Bool) (d : VarDecl) (v : PyVal) :
     schemaOk O strict d v = accepts O strict d v := by
-  unfold schemaOk accepts
-  cases h1 : isInstance v d.row.ty <;> cases h2 : d.row.needTz <;> cases h3 : awareOf v <;>
-    cases strict <;> simp
-  all_goals (cases allowedOk O d v <;> try simp)
-  all_goals (rename_i b; cases b <;> simp)
+  unfold schemaOk accepts schemaOf
+  cases h : Upnp.C08.mkSchema O table d.row strict d.decl with
+  | error e => rfl
+  | ok sc =>
+    obtain ⟨h1, h2⟩ := mkSchema_fields O d.row strict d.decl sc h
+    simp only [Option.map_some]
+    rw [← h1, ← h2]
+    rfl
 
 theorem validate_accepted (O : Oracles) (strict : Bool) (kw : Kwargs) :
     ∀ ds : List ArgDecl, allAccepted O strict ds kw = some true → validateArgs O strict ds kw = .ok () := by
@@ -80,73 +76,21 @@ theorem validate_refused (O : Oracles) (strict : Bool) (kw : Kwargs) :
         | false => right; rfl
         | true => simp only [ha] at h ⊢; exact ih h
 
-theorem accepted_isInstance (O : Oracles) (strict : Bool) (d : VarDecl) (v : PyVal)
-    (h : accepts O strict d v = some true) : isInstance v d.row.ty = true := by
-  unfold accepts at h
-  cases h1 : isInstance v d.row.ty with
-  | true => rfl
-  | false => simp [h1] at h
-
-theorem FNum.eq_self_or_nan (x : FNum) : FNum.eq x x = true ∨ x = .nan := by
-  cases x <;> simp [FNum.eq]
-
-/-- every accepted value is rendered, and its wire text decodes (declared `in` coercion) to it -/
-theorem roundtrip (O : Oracles) (row : TypeRow) (v : PyVal) (hrow : rowSound row = true)
-    (hty : isInstance v row.ty = true) (hO : oracleOk O v) :
-    ∃ t, coerceUpnp row v = .ok t ∧ decodesTo O row t v = true := by
-  obtain ⟨name, ty, tz, inn, out⟩ := row
-  simp only [rowSound] at hrow
-  simp only at hty
-  cases ty <;> cases inn <;> cases out <;> simp at hrow <;> cases v <;> simp [isInstance] at hty
-  -- int row
-  · rename_i n
-    refine ⟨decOfInt n, rfl, ?_⟩
-    simp [decodesTo, coercePython, pyInt_decOfInt, pyEq, PyVal.num?, FNum.eq]
-  · rename_i b
-    cases b
-    · refine ⟨['0'], rfl, ?_⟩
-      have : pyInt? ['0'] = some 0 := by decide
-      simp [decodesTo, coercePython, this, pyEq, PyVal.num?, FNum.eq]
-    · refine ⟨['1'], rfl, ?_⟩
-      have : pyInt? ['1'] = some 1 := by decide
-      simp [decodesTo, coercePython, this, pyEq, PyVal.num?, FNum.eq]
-  -- float row
-  · rename_i r x
-    refine ⟨r, rfl, ?_⟩
-    simp only [oracleOk] at hO
-    simp only [decodesTo, coercePython, hO, pyEq, PyVal.num?]
-    rcases FNum.eq_self_or_nan x with h | h
-    · simp [h]
-    · subst h; simp [isNanVal]
-  -- str row
-  · rename_i s
-    exact ⟨s, rfl, by simp [decodesTo, coercePython, pyEq, PyVal.num?]⟩
-  -- bool row
-  · rename_i yes t f b
-    cases b
-    · refine ⟨f, by simp [coerceUpnp, truthy], ?_⟩
-      simp [decodesTo, coercePython, pyEq, PyVal.num?, FNum.eq, hrow.2]
-    · refine ⟨t, by simp [coerceUpnp, truthy], ?_⟩
-      simp [decodesTo, coercePython, pyEq, PyVal.num?, FNum.eq, hrow.1]
-  -- date row: date or datetime value
-  · rename_i c a iso
-    cases c <;> simp at hty
-    all_goals
-      refine ⟨iso, rfl, ?_⟩
-      simp only [oracleOk] at hO
-      simp [decodesTo, coercePython, hO, pyEq, PyVal.num?]
-  -- datetime row
-  · rename_i c a iso
-    cases c <;> simp at hty
-    refine ⟨iso, rfl, ?_⟩
-    simp only [oracleOk] at hO
-    simp [decodesTo, coercePython, hO, pyEq, PyVal.num?]
-  -- time row
-  · rename_i c a iso
-    cases c <;> simp at hty
-    refine ⟨iso, rfl, ?_⟩
-    simp only [oracleOk] at hO
-    simp [decodesTo, coercePython, hO, pyEq, PyVal.num?]
+/-- **Every type.**  For each of the 26 rows of the generated table and every in-domain value of
+    the row's class (C08's `rtDomain`: the class itself, or a `bool` under an integer type; valid
+    calendar dates 0001..9999, times / date-times at second precision, naive or with any whole-minute
+    offset; integers `str` can print), the value is rendered and its wire text decodes back to it —
+    C08's `roundtrip_all_types`; the former float / date-time hypotheses are gone except C08's single
+    float assumption `RoundTrips` (`float(repr(x)) == x`). -/
+theorem roundtrip (O : Oracles) (hf : Upnp.C08.FloatOps.RoundTrips O) (row : TypeRow)
+    (hrow : row ∈ Gen.C08Types.rows) (v : PyVal) (hv : Upnp.C08.rtDomain row.ty v = true) :
+    ∃ t, coerceUpnp O row v = .ok t ∧ decodesTo O row t v = true := by
+  obtain ⟨h1, h2⟩ := Upnp.C08.roundtrip_all_types O hf row hrow v hv
+  refine ⟨Upnp.C08.wire O v, h1, ?_⟩
+  unfold decodesTo
+  show (match Upnp.C08.coercePython O Gen.C08Types.table row (Upnp.C08.wire O v) with
+        | .ok w => w == Upnp.C08.expectBack row.ty v | .error _ => false) = true
+  rw [h2]; simp
 
 /-- the leaf element an XML parser builds for `<name>text</name>` -/
 def leaf (p : Str × Str) : Xml := .node p.1 (if p.2.isEmpty then none else some p.2) []
@@ -157,18 +101,21 @@ theorem leaf_text (p : Str × Str) : (leaf p).text.getD [] = p.2 := by
   | nil => simp
   | cons c r => simp
 
+/-- the in-domain hypothesis of the main theorem for one call: every in-argument's row is a row of
+    the generated table and every supplied value lies in C08's round-trip domain for it -/
+def InDomain (ds : List ArgDecl) (kw : Kwargs) : Prop :=
+  ∀ d ∈ ds, d.var.row ∈ Gen.C08Types.rows ∧ ∀ v, kw.lookup d.name = some v → Upnp.C08.rtDomain d.var.row.ty v = true
+
 /-- accepted assignments are rendered argument by argument, and the rendered leaves pass `argsOk` -/
-theorem coerceArgs_ok (O : Oracles) (strict : Bool) (kw : Kwargs) :
-    ∀ ds : List ArgDecl, allAccepted O strict ds kw = some true →
-      (∀ d ∈ ds, rowSound d.var.row = true) →
-      (∀ d ∈ ds, ∀ v, kw.lookup d.name = some v → oracleOk O v) →
-      ∃ args, coerceArgs ds kw = .ok args ∧ args.map (·.1) = ds.map (·.name)
+theorem coerceArgs_ok (O : Oracles) (hf : Upnp.C08.FloatOps.RoundTrips O) (strict : Bool) (kw : Kwargs) :
+    ∀ ds : List ArgDecl, allAccepted O strict ds kw = some true → InDomain ds kw →
+      ∃ args, coerceArgs O ds kw = .ok args ∧ args.map (·.1) = ds.map (·.name)
         ∧ argsOk O ds kw (args.map leaf) = true := by
   intro ds
   induction ds with
-  | nil => intro _ _ _; exact ⟨[], rfl, rfl, rfl⟩
+  | nil => intro _ _; exact ⟨[], rfl, rfl, rfl⟩
   | cons d r ih =>
-    intro h hrow hO
+    intro h hdom
     unfold allAccepted at h
     cases hl : kw.lookup d.name with
     | none => simp [hl] at h
@@ -181,10 +128,9 @@ theorem coerceArgs_ok (O : Oracles) (strict : Bool) (kw : Kwargs) :
         | false => simp [ha] at h
         | true =>
           simp only [ha] at h
-          obtain ⟨args, hc, hn, hok⟩ := ih h (fun d' hd' => hrow d' (by simp [hd']))
-            (fun d' hd' => hO d' (by simp [hd']))
-          obtain ⟨t, ht, hdec⟩ := roundtrip O d.var.row v (hrow d (by simp))
-            (accepted_isInstance O strict d.var v ha) (hO d (by simp) v hl)
+          obtain ⟨args, hc, hn, hok⟩ := ih h (fun d' hd' => hdom d' (by simp [hd']))
+          obtain ⟨hrow, hv⟩ := hdom d (by simp)
+          obtain ⟨t, ht, hdec⟩ := roundtrip O hf d.var.row hrow v (hv v hl)
           refine ⟨(d.name, t) :: args, ?_, ?_, ?_⟩
           · unfold coerceArgs; simp [hl, ht, hc]
           · simp [hn]
@@ -239,8 +185,8 @@ structure Hyp (O : Oracles) (a : ActionDecl) (kw : Kwargs) : Prop where
   url : (urljoin a.deviceUrl a.controlUrl).isSome = true
   action : xmlNameOk a.name = true
   names : ∀ d ∈ a.inArgs, xmlNameOk d.name = true
-  rows : ∀ d ∈ a.inArgs, rowSound d.var.row = true
-  oracle : ∀ d ∈ a.inArgs, ∀ v, kw.lookup d.name = some v → oracleOk O v
+  floats : Upnp.C08.FloatOps.RoundTrips O          -- C08's one float assumption: `float(repr(x)) == x`
+  domain : InDomain a.inArgs kw
 
 theorem header_soapaction (x y z : Str) :
     header? [("SOAPAction".toList, x), ("Host".toList, y), ("Content-Type".toList, z)] "SOAPAction".toList = some x := by
